@@ -70,9 +70,9 @@ Section C12.
       exists r p, nget h' m = Some r /\ parent r = Some p /\ desc h' n' p /\ In m (kids_of h' p).
     Proof. exact (copy_parents uuid h n h' n' P). Qed.
 
-    (** recorded, not claimed: the copy's root keeps the parent field of the original *)
-    Theorem C12_root_parent_recorded :
-      exists r r', nget h n = Some r /\ nget h' n' = Some r' /\ parent r' = parent r.
+    (** … and the copy is a detached tree: its root has no parent (so ALL parent links of the
+        copy point inside the copy) *)
+    Theorem C12_root_detached : exists r', nget h' n' = Some r' /\ parent r' = None.
     Proof. exact (copy_root_parent uuid h n h' n' P). Qed.
 
     (** copy and original share no node object and no attributes / extras / nsmap dict object
@@ -114,7 +114,7 @@ Print Assumptions C12_fresh.
 Print Assumptions C12_ids_distinct.
 Print Assumptions C12_ids_unused.
 Print Assumptions C12_parents.
-Print Assumptions C12_root_parent_recorded.
+Print Assumptions C12_root_detached.
 Print Assumptions C12_disjoint.
 Print Assumptions C12_frame_edit_in_copy.
 Print Assumptions C12_frame_edit_in_original.
